@@ -22,7 +22,7 @@ fn delivered_intact(run: &FaultRun, a: &Attempt) -> bool {
 fn served_any(run: &FaultRun, a: &Attempt) -> bool {
 	a.reqs.iter().any(|i| {
 		let l = &run.snap.log[*i];
-		l.pos == Pos::Cert && l.status == 200 && l.action.as_deref() != Some("NonPemBody")
+		l.pos == Pos::Cert && l.status == 200 && l.action.as_deref() != Some("NonPemBody") && l.action.as_deref() != Some("DamagedChain")
 	})
 }
 
@@ -135,7 +135,7 @@ fn single_cases(tier: Tier) -> Vec<FaultCase> {
 				Tier::Quick => vec![(i % 2 == 0, 1 + (i % 3 == 0) as usize)],
 				Tier::Thorough => vec![(false, 1), (true, 1), (i % 2 == 0, 3)],
 			};
-			variants.into_iter().map(move |(pp, attempts)| FaultCase { faults: vec![f.clone()], previous_pair: pp, kp_reuse: false, attempts, nonce_on_get: false, hook_faults: vec![], file_hooks: false, retry_after: None }).collect::<Vec<_>>()
+			variants.into_iter().map(move |(pp, attempts)| FaultCase { faults: vec![f.clone()], previous_pair: pp, kp_reuse: false, attempts, nonce_on_get: false, hook_faults: vec![], file_hooks: false, retry_after: None, processing: false }).collect::<Vec<_>>()
 		})
 		.collect()
 }
@@ -146,7 +146,7 @@ fn hook_cases() -> Vec<FaultCase> {
 	for h in hooks {
 		for b in ["exit:1", "exit:2", "exit:126", "exit:255", "kill"] {
 			for pp in [false, true] {
-				out.push(FaultCase { faults: vec![], previous_pair: pp, kp_reuse: false, attempts: 2, nonce_on_get: false, hook_faults: vec![(h.to_string(), b.to_string())], file_hooks: true, retry_after: None });
+				out.push(FaultCase { faults: vec![], previous_pair: pp, kp_reuse: false, attempts: 2, nonce_on_get: false, hook_faults: vec![(h.to_string(), b.to_string())], file_hooks: true, retry_after: None, processing: false });
 			}
 		}
 	}
